@@ -51,7 +51,8 @@ What is proved
     Lemma `remove-genes/kept-rule-is-old-rule-with-genes-absent`: the contract of _GeneRemover.visit for the body, lifted to the GPR
     object whose body remove_genes replaces.
 NOT attempted: GPRCleaner.visit_Name (rewrites identifiers: string level), from_symbolic._sympy_to_ast (allocates nodes
-under a list comprehension), GPR.copy (deepcopy of a tree), the root case of _GeneRemover.visit (generic_visit deletes the `body`
+under a list comprehension), the content of deepcopy (GPR.copy / __copy__ are a proved pass-through of an assumed deepcopy: last
+section), the root case of _GeneRemover.visit (generic_visit deletes the `body`
 attribute of the GPR object; remove_genes then sets it to None).
 
 What is assumed (listed in the evidence)
@@ -90,6 +91,7 @@ Mutation trials (tools/mutate_and_run.sh; every mutant left the named obligation
   gene.py    __eq__: `return False` -> `return True` (one empty / one Symbol); other_symb from self; `and` -> `or`     post
   gene.py    as_symbolic: table {} instead of None; self.body instead of self           call:GPR._symbolic_gpr/pre
   gene.py    _eval_gpr: `not in` -> `in`; any -> all; eval: knockouts=set()                   post of the case (heap contracts)
+  gene.py    copy: deepcopy(self) -> self; __copy__: self.copy() -> self                       post.2 (a different object)
   gene.py    visit_BinOp: TUPLE (node.left, node.right) (the historical defect)         call:BoolOp.__init__/pre
   gene.py    visit_BinOp: And() -> Or(); operands swapped; BitAnd test -> BitOr; raise -> return node; [node.left] only
                                                                                         post.7 / post.9-11 / expected-TypeError / post.8
@@ -1031,3 +1033,34 @@ def evh_call_method_hook(eng, st, recv, name, pos, kw):
 HOOKS_EV = chain_hooks({"call_method": evh_call_method_hook}, HOOKS_CL)
 HOOKS_EV["call_abstract"] = HOOKS_SYM["call_abstract"]
 HOOKS = HOOKS_EV
+
+
+# ================================================================ GPR.copy / GPR.__copy__ (pass-through of an ASSUMED deepcopy)
+# copy.deepcopy of a GPR object is ASSUMED to return another GPR object with an isomorphic tree: same truth table (for the arbitrary
+# K `vis_K`), same names, a body exactly when the original has one; nothing that exists is written.  Proved: copy() and __copy__()
+# return that object (a one-line / two-line pass-through; listed for completeness of the statement `copying yields a rule with the
+# same truth table and gene set`).
+def copy_spec(E, st, g, r):
+    h = heap3(E, st)
+    k = qv("ck", Id)
+    tg, BD = H(E, st, "ast_tag"), h[2]
+    return z3.And(r != NULL, r != g, tg[r] == T_GPR, wfh(*h, r), (BD[r] == NULL) == (BD[g] == NULL),
+                  semh(*h, r, VIS_K) == semh(*h, g, VIS_K),
+                  FA([k], names(*h, r)[k] == names(*h, g)[k], patterns=[names(*h, r)[k]]))
+
+
+def copy_call_abstract_hook(eng, st, f, pos, kw):
+    if f.a == "deepcopy" and len(pos) == 1 and not kw and isinstance(pos[0], VRef) and pos[0].cls == "GPR":
+        r = fresh("gpr_copy", Ref)
+        E = Env({}, st, eng=eng)
+        return [("ok", st.assume(copy_spec(E, st, pos[0].t, r)), VRef(r, "GPR"))]
+    return None
+
+
+HOOKS_CP = dict(HOOKS_EV)
+HOOKS_CP["call_abstract"] = _chain_abstract(copy_call_abstract_hook, sym_call_abstract_hook, call_abstract_hook)
+HOOKS = HOOKS_CP
+
+for _q in ("GPR.copy", "GPR.__copy__"):
+    REG.add(Contract(MG, _q, "C08", [("self", TRef("GPR"))], [Case("any", ensures=lambda E: copy_spec(E, E.s1, E["self"].t, E.res.t))],
+                     pre=_gpr_pre, axioms=_wk_axioms, key=_q, result=lambda eng, st, E: (st, VRef(fresh("copy_res", Ref), "GPR"))))
